@@ -280,16 +280,17 @@ Definition hb_set_one (r:rnode) (i iv off:Z) : rnode :=
   else
     let interval2 := Z.max 1000 (Z.min interval1 c_MaxHeartbeatInterval) in
     let changed := negb (ss_period (x_hb x) =? interval2) || negb (ss_offset (x_hb x) =? offset1) in
-    if changed then
+    if changed || (ss_next (x_hb x) =? ss_disabled) then
       let '(rc, t) := millis64 r in
-      with_devinfo_changed (with_devx rc i {| x_pend_claim := x_pend_claim x; x_pend_prod := x_pend_prod x; x_pend_conf := x_pend_conf x;
-                                              x_hb := ss_update_next t (r_sync rc) {| ss_next := ss_next (x_hb x); ss_offset := offset1; ss_period := interval2 |};
-                                              x_hb_seq := x_hb_seq x; x_rx := x_rx x |})
+      let rc' := with_devx rc i {| x_pend_claim := x_pend_claim x; x_pend_prod := x_pend_prod x; x_pend_conf := x_pend_conf x;
+                                    x_hb := ss_update_next t (r_sync rc) {| ss_next := ss_next (x_hb x); ss_offset := offset1; ss_period := interval2 |};
+                                    x_hb_seq := x_hb_seq x; x_rx := x_rx x |} in
+      if changed then with_devinfo_changed rc' else rc'
     else r.
 Lemma set_heartbeat_all_S k r i iv off : set_heartbeat_all (S k) r i iv off = set_heartbeat_all k (hb_set_one r i iv off) (i + 1) iv off.
 Proof.
   cbn [set_heartbeat_all]. unfold hb_set_one. cbv zeta.
-  destruct (_ =? 0); [reflexivity|]. destruct (_ || _); [|reflexivity]. destruct (millis64 r). reflexivity.
+  destruct (_ =? 0); [reflexivity|]. destruct (_ || _ || _); [|reflexivity]. destruct (millis64 r). reflexivity.
 Qed.
 
 Lemma resolve_model iv cur :
@@ -311,7 +312,7 @@ Record one_ok (r r1:rnode) (i iv off:Z) : Prop := {
      match hb_resolve_period iv (ss_period (x_hb x)) with
      | None => x_hb x' = hb_at (x_hb x) ss_disabled
      | Some p => 1000 <= p <= 655320 /\
-       if hb_changed iv off x
+       if hb_changed iv off x || (ss_next (x_hb x) =? ss_disabled)
        then x_hb x' = ss_update_next (snd (millis64 r)) (r_sync r) {| ss_next := ss_next (x_hb x); ss_offset := hb_resolve_offset off (ss_offset (x_hb x)); ss_period := p |}
        else x_hb x' = x_hb x
      end }.
@@ -336,28 +337,40 @@ Proof.
     + intros Hr. cbv zeta. rewrite get_devx_with_devx by lia. rewrite RM. cbn. repeat split.
   - set (p := Z.max 1000 (Z.min interval1 c_MaxHeartbeatInterval)) in *.
     assert (Hpr: 1000 <= p <= 655320) by (unfold p, c_MaxHeartbeatInterval; lia).
-    rewrite RM in HC.
-    destruct (negb (ss_period (x_hb (get_devx r i)) =? p) || negb (ss_offset (x_hb (get_devx r i)) =? hb_resolve_offset off (ss_offset (x_hb (get_devx r i))))) eqn:Hch.
+    rewrite RM in HC. rewrite <- HC.
+    destruct (hb_changed iv off (get_devx r i) || (ss_next (x_hb (get_devx r i)) =? ss_disabled)) eqn:Hch.
     + pose proof (millis64_rn r) as M1. pose proof (millis64_rx_dev r) as M2. pose proof (millis64_sync r) as M3.
       pose proof (millis64_idem r) as M4.
       assert (M5: r_slots (fst (millis64 r)) = r_slots r) by (unfold millis64; destruct (w64 r); reflexivity).
       assert (M6: r_q (fst (millis64 r)) = r_q r) by (unfold millis64; destruct (w64 r); reflexivity).
       assert (M7: r_devinfo_changed (fst (millis64 r)) = r_devinfo_changed r) by (unfold millis64; destruct (w64 r); reflexivity).
       destruct (millis64 r) as [rc t] eqn:EM. cbn [fst snd] in *.
-      constructor; rewrite ?EM; cbn [with_devinfo_changed with_devx rn rx_dev r_sync r_slots r_q r_devinfo_changed]; [exact M1| |exact M3|exact M5|exact M6| | | |].
-      * rewrite zset_length, M2. reflexivity.
-      * transitivity (snd (millis64 rc)); [apply millis64_snd_ext; reflexivity|]. rewrite M4. reflexivity.
-      * intros j Hj Hne. unfold get_devx. cbn [with_devinfo_changed with_devx rx_dev]. unfold znth, zset. rewrite nth_set_nth_neq by lia. rewrite M2. reflexivity.
-      * rewrite HC, orb_true_r. reflexivity.
-      * intros Hr. cbv zeta. rewrite RM, HC.
-        match goal with |- context [get_devx (with_devinfo_changed (with_devx rc i ?X)) i] =>
-          assert (G: get_devx (with_devinfo_changed (with_devx rc i X)) i = X)
-            by (unfold get_devx at 1; cbn [with_devinfo_changed with_devx rx_dev]; apply znth_zset_eq; rewrite M2; lia) end.
-        rewrite G. cbn [x_hb_seq x_pend_claim x_pend_prod x_pend_conf x_rx x_hb].
-        repeat (split; [reflexivity|]). split; [exact Hpr|]. rewrite M3. reflexivity.
-    + constructor; [reflexivity|reflexivity|reflexivity|reflexivity|reflexivity|reflexivity|intros; reflexivity| |].
-      * rewrite HC, orb_false_r. reflexivity.
-      * intros Hr. cbv zeta. rewrite RM, HC. repeat (split; [reflexivity|]). split; [exact Hpr|reflexivity].
+      match goal with |- one_ok r (if _ then with_devinfo_changed (with_devx rc i ?X) else _) _ _ _ => set (xa := X); set (rc' := with_devx rc i xa) end.
+      assert (G: (i < Z.of_nat (length (rx_dev r)) -> get_devx rc' i = xa) /\ forall j, 0 <= j -> j <> i -> get_devx rc' j = get_devx r j).
+      { split; [intros; unfold rc', get_devx at 1; cbn [with_devx rx_dev]; apply znth_zset_eq; rewrite M2; lia
+               |intros j Hj Hne; unfold rc', get_devx; cbn [with_devx rx_dev]; unfold znth, zset; rewrite nth_set_nth_neq by lia; rewrite M2; reflexivity]. }
+      assert (X: forall ra, rn ra = rn rc' -> rx_dev ra = rx_dev rc' -> r_sync ra = r_sync rc' -> r_slots ra = r_slots rc' -> r_q ra = r_q rc' -> r_clk ra = r_clk rc' ->
+                 r_devinfo_changed ra = r_devinfo_changed r || hb_changed iv off (get_devx r i) -> one_ok r ra i iv off).
+      { intros ra A1 A2 A3 A4 A5 A6 A7.
+        assert (Gd: forall j, get_devx ra j = get_devx rc' j) by (intros; unfold get_devx; rewrite A2; reflexivity).
+        constructor; rewrite ?EM; cbn [snd].
+        - rewrite A1. exact M1.
+        - rewrite A2. unfold rc'. cbn [with_devx rx_dev]. rewrite zset_length, M2. reflexivity.
+        - rewrite A3. exact M3.
+        - rewrite A4. exact M5.
+        - rewrite A5. exact M6.
+        - transitivity (snd (millis64 rc)); [apply millis64_snd_ext; [rewrite A1; reflexivity|rewrite A6; reflexivity]|]. rewrite M4. reflexivity.
+        - intros j Hj Hne. rewrite Gd. apply G; assumption.
+        - exact A7.
+        - intros Hr. cbv zeta. rewrite RM, Hch, Gd. destruct G as [G1 _]. rewrite (G1 Hr).
+          repeat (split; [reflexivity|]). split; [exact Hpr|]. unfold xa. cbn [x_hb]. rewrite M3. reflexivity. }
+      destruct (hb_changed iv off (get_devx r i)) eqn:Hc1.
+      * apply X; try reflexivity. cbn [with_devinfo_changed r_devinfo_changed]. rewrite orb_true_r. reflexivity.
+      * apply X; try reflexivity. unfold rc'. cbn [with_devx r_devinfo_changed]. rewrite M7, orb_false_r. reflexivity.
+    + apply orb_false_iff in Hch. destruct Hch as [Hc1 Hc2].
+      constructor; [reflexivity|reflexivity|reflexivity|reflexivity|reflexivity|reflexivity|intros; reflexivity| |].
+      * rewrite Hc1, orb_false_r. reflexivity.
+      * intros Hr. cbv zeta. rewrite RM, Hc1, Hc2. repeat (split; [reflexivity|]). split; [exact Hpr|reflexivity].
 Qed.
 
 Theorem hb_clip : hb_clip_stmt.
@@ -369,8 +382,8 @@ Proof.
     destruct (hb_set_one_ok r i iv off Hi) as [O1 O2 O3 O4 O5 O6 O7 O8 O9].
     set (r1 := hb_set_one r i iv off) in *.
     specialize (IH r1 (i + 1) iv off ltac:(lia)). cbv zeta in IH.
-    destruct IH as (I1 & I2 & I3 & I4 & I5 & I6 & I7).
-    split; [congruence|]. split; [congruence|]. split; [congruence|]. split; [congruence|]. split; [congruence|].
+    destruct IH as (I1 & I2 & I3 & I4 & I5 & I5b & I6 & I7).
+    split; [congruence|]. split; [congruence|]. split; [congruence|]. split; [congruence|]. split; [congruence|]. split; [congruence|].
     split.
     + intros j Hj. cbv zeta. specialize (I6 j ltac:(rewrite O2; exact Hj)). cbv zeta in I6. destruct I6 as [I6a I6b].
       split.
@@ -389,17 +402,27 @@ Proof.
 Qed.
 Print Assumptions hb_clip.
 
-(* 5b. the refutation *)
-Theorem hb_reenable_refuted : hb_reenable_refuted_stmt.
-Proof. unfold hb_reenable_refuted_stmt. intros cfg. vm_compute. repeat split; intros; discriminate. Qed.
-Print Assumptions hb_reenable_refuted.
-Theorem hb_reenable_false : ~ hb_reenable_stmt.
+(* 5b. re-enabling restarts the schedule *)
+Theorem hb_reenable : hb_reenable_stmt.
 Proof.
-  intros H. pose (cfg := {| c_only_known := false; c_iso_handler := None; c_prodinfo := []; c_confinfo := []; c_hb_on := true;
-                             c_inst1 := []; c_inst2 := []; c_manuf := []; c_inst_changed := false |}).
-  destruct (hb_reenable_refuted cfg) as (A & B & C & D & E & F & _).
-  apply (H (hb_reenable_witness cfg) 0 60000 10000); try assumption.
-  all: try (rewrite E; discriminate).
-  all: try (vm_compute; split; [discriminate|reflexivity]).
+  unfold hb_reenable_stmt. intros r i iv off Hi Hs Ht Hoff Hco Hres. cbv zeta.
+  destruct (hb_clip 1%nat r i iv off ltac:(lia)) as (_ & _ & _ & _ & _ & _ & C & _). cbv zeta in C.
+  destruct (C i Hi) as [_ C2]. specialize (C2 ltac:(lia)). destruct C2 as (_ & _ & _ & _ & _ & C3).
+  set (x := get_devx r i) in *. set (x' := get_devx (set_heartbeat_all 1 r i iv off) i) in *.
+  destruct (hb_resolve_period iv (ss_period (x_hb x))) as [p|] eqn:ER; [|congruence].
+  destruct C3 as [Hp C3].
+  assert (Ho': 0 <= hb_resolve_offset off (ss_offset (x_hb x)) < TB).
+  { unfold hb_resolve_offset. rewrite TB_val. change (2^32) with 4294967296 in *. destruct (off =? 4294967295); lia. }
+  pose proof (hb_grid (snd (millis64 r)) (r_sync r) (hb_resolve_offset off (ss_offset (x_hb x))) p (ss_next (x_hb x)) Ht Hs Ho') as G.
+  cbv zeta in G. destruct G as (G0 & G1 & _). specialize (G1 ltac:(rewrite TB_val; lia)).
+  destruct G1 as (Gp & Glt & Ggrid & Gleast & _ & _ & _ & _ & Gub).
+  assert (Dis: ss_disabled = 18446744073709551615) by reflexivity.
+  split.
+  - intros Hen. destruct (hb_changed iv off x || (ss_next (x_hb x) =? ss_disabled)).
+    + rewrite C3. intros E. rewrite E, Dis, TB_val in Gub. lia.
+    + rewrite C3. exact Hen.
+  - intros Hd. rewrite Hd, Z.eqb_refl, orb_true_r in C3. rewrite Hd in *.
+    rewrite C3. rewrite Gp, G0. split; [intros E; rewrite E, Dis, TB_val in Gub; lia|]. split; [exact Glt|]. split; [exact Ggrid|].
+    split; [exact Gleast|]. split; reflexivity.
 Qed.
-Print Assumptions hb_reenable_false.
+Print Assumptions hb_reenable.
